@@ -23,6 +23,8 @@ class FuncInfo:
         self.cls = cls
         self.name = node.name
         self.decorators = [ast.unparse(d) for d in node.decorator_list]
+        if any(d in ('cached_property', 'functools.cached_property') for d in self.decorators):
+            self.decorators.append('property')       # computed on first access and kept: for a pure getter the same value
 
     @property
     def params(self):
@@ -49,6 +51,18 @@ class ClassInfo:
         self.name = node.name
         self.methods = {}
         self.bases = [ast.unparse(b) for b in node.bases]
+        # class-level names: NAME = expr, and annotated fields NAME: T [= expr] (typing.NamedTuple / dataclass style), in order
+        self.assigns = {}
+        self.fields = []
+        for b in node.body:
+            if isinstance(b, ast.Assign):
+                for t in b.targets:
+                    if isinstance(t, ast.Name):
+                        self.assigns[t.id] = b.value
+            elif isinstance(b, ast.AnnAssign) and isinstance(b.target, ast.Name):
+                self.fields.append((b.target.id, b.value))
+                if b.value is not None:
+                    self.assigns[b.target.id] = b.value
 
     def __repr__(self):
         return '<class %s>' % self.qual
